@@ -236,6 +236,14 @@ def run(ctx):
     mst = '---- MODULE MSQueue_RA ----\nEXTENDS MSQueue\nOrdX == [OrdCode EXCEPT !.p_link = "rlx", !.q_acqn = "rlx"]\n====\n'
     jobs.append(lambda: tlc_mc(ctx, 'ra_toggle_ms_link_rlx', 'MSQueue_RA', dict(ms_ra, Ord='<-OrdX'), invariants=['NoDataRace', 'Conservation', 'MemorySafe'], view='mcview', constraints=['MsgBound5'],
                                workers=4, expect='violation', extra_files={'MSQueue_RA.tla': mst}, tmo=1500))
+    # ---------------- thread_block_list: plain next_entry / retired-node links published by release CASes (orders as written in the code)
+    tb_ra = RM.tb_consts(Weak=True, Lives=1, NNodes=2, MaxRetire=1)
+    INV_TBW = ['NoDataRace', 'Exclusive', 'NoNodeLost']
+    jobs.append(lambda: tlc_mc(ctx, 'ra_threadblocklist', 'ThreadBlockList', tb_ra, invariants=INV_TBW, view='mcview', constraints=['MsgBound5'], workers=4, tmo=1200))
+    for nm, chg in (('push_rlx', '!.a_push = "rlx"'), ('head_load_rlx', '!.a_ldh = "rlx"'), ('abandon_cas_rlx', '!.b_cas = "rlx"')):
+        tbt = '---- MODULE ThreadBlockList_RA ----\nEXTENDS ThreadBlockList\nOrdX == [OrdCode EXCEPT %s]\n====\n' % chg
+        jobs.append(lambda nm=nm, tbt=tbt: tlc_mc(ctx, 'ra_toggle_tbl_' + nm, 'ThreadBlockList_RA', dict(tb_ra, Ord='<-OrdX'), invariants=INV_TBW, view='mcview', constraints=['MsgBound5'],
+                                                    workers=3, expect='violation', extra_files={'ThreadBlockList_RA.tla': tbt}, tmo=1200))
     run_parallel(jobs, maxw=4)
     race_sweep(ctx)
     # A counterexample of the weak-memory model instantiated with the order table EXTRACTED from this tree is reported if the step-level
